@@ -94,14 +94,14 @@ def run(tier, seed):
         if ok:
             st['grounded'] += 1
             continue
-        if sents is None:
+        if sents is None and not name.startswith('regressions/c06_'):      # (the c06_ regression texts are written to meet the hypothesis)
             st['corpus_ground_failures'] += 1     # hypothesis (author variables positive, facts total) not established for corpus texts
             continue
         m = ' '.join(x[1] for x in msgs)
         anon = "'#Anon" in m and 'unsafe' in m
         named = re.findall(r"note: '([A-Z]\w*)' is unsafe", m)
         head_has_anon = any(re.search(r'^[^:]*\{[^}]*\b_\b[^}]*\}', l) or re.search(r'^[a-z_]\w*\([^)]*\b_\b[^)]*\)\s*(\||:-|\.)', l) for l in flat.split('\n'))
-        if anon and not named and head_has_anon and 'F-C06-anonymous-in-head' in findings:
+        if anon and not named and head_has_anon and sents is not None and 'F-C06-anonymous-in-head' in findings:      # (wide-generator inputs only: the regression texts must ground)
             rep.known_finding('F-C06-anonymous-in-head', findings['F-C06-anonymous-in-head']['summary'])
         else:
             rep.violation('the compiled program does not ground: %s' % m[:300], dict(text=text, program=flat, messages=msgs[:3]))
@@ -137,14 +137,14 @@ def run(tier, seed):
     rep.sample(dict(text=pmeta[0]['text'], program=pmeta[0]['program']))
     rep.sample(dict(convert_value=[(t, o) for _, t, o in vc[-5:]]))
     tie_broken = []
-    if proof['ok']:
+    if proof['ok'] or proof['extra_ok']:
         f1 = common.run_cases(PID, 'flat', PRE_P, pcases, 'flat_ok', shard=40)
         f2 = common.run_cases(PID, 'val', PRE_V, vcases, 'vcase_ok', shard=1500)
         if f1:
             tie_broken.append('printer model differs from the implementation on %d programs, first: %s' % (len(f1), pmeta[f1[0]]['name']))
         if f2:
             tie_broken.append('convert_value model differs on %d tokens, first: %r' % (len(f2), vc[f2[0]]))
-    else:
+    if not proof['ok']:
         tie_broken.append('theorem file does not build: %s' % proof['failed_at'])
     if proof['bad']:
         tie_broken.append('forbidden tokens: %r' % proof['bad'])
